@@ -277,6 +277,12 @@ def check_state(w):
     return None
 
 
+def _sn(x):
+    """Generated name without the per-world module prefix."""
+    n = getattr(x, '__name__', None)
+    return n.rsplit('.', 1)[-1] if isinstance(n, str) else None
+
+
 def hidden(w):
     """Digest of the implementation state that may influence the future and is
     not determined by the models; used for merging only."""
@@ -284,24 +290,24 @@ def hidden(w):
     for k, c in w.K.items():
         s = c.__dict__.get('__implemented__')
         out.append((k, None if s is None else (
-            tuple(x.__name__ for x in s.declared), s.inherit is not None,
-            tuple(getattr(b, '__name__', None) for b in s.__bases__),
-            tuple(x.__name__ for x in s.__sro__))))
+            tuple(_sn(x) for x in s.declared), s.inherit is not None,
+            tuple(_sn(b) for b in s.__bases__),
+            tuple(_sn(x) for x in s.__sro__))))
         p = c.__dict__.get('__provides__')
         out.append(None if p is None else (
-            type(p).__name__, tuple(b.__name__ for b in p.__bases__)))
+            type(p).__name__, tuple(_sn(b) for b in p.__bases__)))
     ids = {}
     for o, ob in w.O.items():
         p = ob.__dict__.get('__provides__')
         out.append((o, None if p is None else (
             ids.setdefault(id(p), len(ids)),
-            tuple(b.__name__ for b in p.__bases__))))
+            tuple(_sn(b) for b in p.__bases__))))
     keys = []
     mine = set(w.K.values())
     for key, v in list(_decl.InstanceDeclarations.items()):
         if key[0] in mine:
-            keys.append((key[0].__name__, tuple(x.__name__ for x in key[1:]),
-                         tuple(b.__name__ for b in v.__bases__),
+            keys.append((key[0].__name__, tuple(_sn(x) for x in key[1:]),
+                         tuple(_sn(b) for b in v.__bases__),
                          ids.get(id(v), -1)))
     out.append(tuple(sorted(keys)))
     return tuple(out)
@@ -408,8 +414,8 @@ def run(ctx):
     from ..runner import finish
     plan = []
     if ctx.tier == 'quick':
-        plan = [('tree', 3, ['B', 'b2'], 1),
-                ('diamond', 2, ['C', 'D', 'd2'], 1)]
+        plan = [('tree', 3, ['b2'], 1),
+                ('diamond', 2, ['D', 'd2'], 1)]
     else:
         plan = [('tree', 4, ['B', 'b2'], 1),
                 ('diamond', 3, ['C', 'D', 'd2'], 1)]
